@@ -127,6 +127,10 @@ fn webauthn(cfg: &Cfg, rep: &mut Report, h: u64) {
             // not genuine: the right values appear, but not as the top-level type / challenge members
             ("decoy-challenge-in-other-member", format!("{{\"type\":\"webauthn.get\",\"challenge\":\"{other}\",\"origin\":\"https://example.com/?challenge={ch}\",\"x\":{{\"challenge\":\"{ch}\"}}}}"), false),
             ("decoy-type-in-nested-member", format!("{{\"type\":\"webauthn.create\",\"challenge\":\"{ch}\",\"x\":{{\"type\":\"webauthn.get\"}}}}"), false),
+            // something follows the object: further bytes, or a whole second object saying otherwise
+            ("bytes-after-the-object", format!("{{\"type\":\"webauthn.get\",\"challenge\":\"{ch}\",\"origin\":\"https://example.com\"}}xyz"), false),
+            ("second-object-after-the-first", format!("{{\"type\":\"webauthn.get\",\"challenge\":\"{ch}\"}}{{\"type\":\"webauthn.create\",\"challenge\":\"{other}\"}}"), false),
+            ("object-cut-short", format!("{{\"type\":\"webauthn.get\",\"challenge\":\"{ch}\",\"origin\":\"https://example.com\""), false),
             ("challenge-with-suffix", format!("{{\"type\":\"webauthn.get\",\"challenge\":\"{ch}A\",\"origin\":\"https://example.com\"}}"), false),
             ("type-with-suffix", format!("{{\"type\":\"webauthn.get2\",\"challenge\":\"{ch}\",\"origin\":\"https://example.com\"}}"), false),
         ];
@@ -534,7 +538,7 @@ fn extractor(cfg: &Cfg, rep: &mut Report) {
 }
 
 pub fn run(cfg: &Cfg, rep: &mut Report) {
-    rep.rule = "Per history a fresh P-256 (resp. Ed25519) key pair and 32-byte payload; a genuine assertion built with independent crypto (p256, ed25519-dalek, sha2) must be accepted by the real verifier examples; then single corruptions: every bit of the payload (256), sampled bits of key / signature / authenticator data / client data, all 256 flag bytes re-signed (accept iff UP and UV and not(BS without BE)), client-data shapes (member order, further and nested members, white space; decoys of type / challenge inside other members), type variants, challenge variants (padded, standard alphabet, other payload, truncated, empty, hex, case), client data of 1023/1024/1025/2000 bytes, authenticator data of 33/36/37/120 bytes, payloads of 0/1/31 bytes, another signer; key data followed by a credential id of 1/16/64/300 bytes (accepted), shifted, cut short or behind another key (rejected); signature data that is empty, random, truncated XDR or XDR of another type (rejected); Ed25519 payloads of 0/1/31/33/48/64/100 bytes (genuine accepted, prefix signature and altered tail rejected); key and signature as byte strings followed by 1/32/64 more bytes or cut short (rejected). Encoder: all inputs of length 0-2 exhaustively (split over shards), random inputs of every length 3..=100, fill patterns. extract_from_bytes::<1|4|32|65> against the slice model over the four range forms (Some(data[a..b]) iff b <= len and b-a == N, else None, never a trap). Distinct case = (verifier, corruption kind or flag bits, outcome). Not judged: WebAuthn payloads longer than 32 bytes (documented: first 32 bytes used) and algebraic signature malleability (host behaviour).".into();
+    rep.rule = "Per history a fresh P-256 (resp. Ed25519) key pair and 32-byte payload; a genuine assertion built with independent crypto (p256, ed25519-dalek, sha2) must be accepted by the real verifier examples; then single corruptions: every bit of the payload (256), sampled bits of key / signature / authenticator data / client data, all 256 flag bytes re-signed (accept iff UP and UV and not(BS without BE)), client-data shapes (member order, further and nested members, white space; decoys of type / challenge inside other members; bytes or a second object after the object, an object cut short), type variants, challenge variants (padded, standard alphabet, other payload, truncated, empty, hex, case), client data of 1023/1024/1025/2000 bytes, authenticator data of 33/36/37/120 bytes, payloads of 0/1/31 bytes, another signer; key data followed by a credential id of 1/16/64/300 bytes (accepted), shifted, cut short or behind another key (rejected); signature data that is empty, random, truncated XDR or XDR of another type (rejected); Ed25519 payloads of 0/1/31/33/48/64/100 bytes (genuine accepted, prefix signature and altered tail rejected); key and signature as byte strings followed by 1/32/64 more bytes or cut short (rejected). Encoder: all inputs of length 0-2 exhaustively (split over shards), random inputs of every length 3..=100, fill patterns. extract_from_bytes::<1|4|32|65> against the slice model over the four range forms (Some(data[a..b]) iff b <= len and b-a == N, else None, never a trap). Distinct case = (verifier, corruption kind or flag bits, outcome). Not judged: WebAuthn payloads longer than 32 bytes (documented: first 32 bytes used) and algebraic signature malleability (host behaviour).".into();
     let nh = cfg.pick(12u64, 1200);
     for k in 0..nh {
         if cfg.runs(k) {
